@@ -35,11 +35,11 @@ def jsonable(o):
     if isinstance(o, (np.integer,)):
         return int(o)
     if isinstance(o, (np.floating,)):
-        return float(o)
+        return jsonable(float(o))
     if isinstance(o, (np.bool_,)):
         return bool(o)
     if isinstance(o, complex) or isinstance(o, np.complexfloating):
-        return {"re": float(o.real), "im": float(o.imag)}
+        return {"re": jsonable(float(o.real)), "im": jsonable(float(o.imag))}
     if isinstance(o, float):
         if o != o:
             return "nan"
